@@ -222,8 +222,8 @@ PROPS["C01"] = {
 
 PROPS["C13"] = {
     "level": "proof",
-    "verus": [{"unit": "owned_load", "rlimit": 400}, {"unit": "unchecked", "rlimit": 400}, {"unit": "lazy_get", "rlimit": 300}],
-    "kani": K_OWNED,
+    "verus": [{"unit": "owned_load", "rlimit": 400}, {"unit": "unchecked", "rlimit": 400}, {"unit": "lazy_get", "rlimit": 300}, {"unit": "container", "rlimit": 400}],
+    "kani": K_OWNED + K_BITS + K_PXOR + K_STRBITS,
     "trusted_base": [T1, T2, T6, T8, VSTD, KANI, T4, PERR, "FastStr / Bytes drop glue excluded from the harnesses (mem::forget)",
                      "unit owned_load: OwnedLazyValue is opaque — it enters through a ghost shape() and the contracts of its one-line constructors (from_non_esc_str, from_faststr, From<bool/()/Number/Vec<..>>, new keeping literals parsed: the latter is what the Kani harnesses owned_new_* check); FastStr / JsonSlice::as_faststr keep the bytes (T4)",
                      "skip_one_unchecked enters through the contract proved in unit unchecked (== skip_one on a well-formed value followed by whitespace and `,` `]` `}` or the end); parse_str / Parser::parse_number enter through assumed contracts (units strings / number)",
@@ -279,8 +279,8 @@ PROPS["C04"] = {
 
 PROPS["C12"] = {
     "level": "proof",
-    "verus": [{"unit": "iterators", "rlimit": 200}, {"unit": "unchecked", "rlimit": 400}],
-    "kani": [],
+    "verus": [{"unit": "iterators", "rlimit": 200}, {"unit": "unchecked", "rlimit": 400}, {"unit": "container", "rlimit": 400}],
+    "kani": K_BITS + K_PXOR + K_STRBITS,
     "trusted_base": [T1, T2, T4, T6, T8, VSTD, PERR,
                      "R8 guard lowering (match guards moved into the scrutinee tuple) applied to parse_array_elem_lazy / parse_entry_lazy",
                      "parse_str acceptance contract assumed in this unit (Ok ==> exactly one grammar-valid string consumed)",
